@@ -15,6 +15,7 @@ NULL = z3.IntVal(-1)
 
 Tok = z3.Datatype('Tok'); Tok.declare('mk', ('kind', I), ('val', I)); Tok = Tok.create()
 Opt = z3.Datatype('Opt'); Opt.declare('none'); Opt.declare('some', ('v', I)); Opt = Opt.create()
+OptR = z3.Datatype('OptR'); OptR.declare('none'); OptR.declare('some', ('v', R)); OptR = OptR.create()
 
 _LS = {}
 
@@ -75,6 +76,12 @@ class VRef(V):
 class VOpt(V):
     def __init__(s, t): s.t = t
     def __repr__(s): return 'VOpt(%s)' % s.t
+
+
+class VOptR(V):
+    """None | float"""
+    def __init__(s, t): s.t = t
+    def __repr__(s): return 'VOptR(%s)' % s.t
 
 
 class VTok(V):
@@ -178,6 +185,7 @@ def fresh_like(name, v):
     if isinstance(v, VReal): return VReal(fresh(name, R))
     if isinstance(v, VRef): return VRef(fresh(name, I), v.cls)
     if isinstance(v, VOpt): return VOpt(fresh(name, Opt))
+    if isinstance(v, VOptR): return VOptR(fresh(name, OptR))
     if isinstance(v, VTok): return VTok(fresh(name, Tok))
     if isinstance(v, VList): return fresh_of_kind(name, ('list', v.kind))
     if isinstance(v, VTuple): return VTuple([fresh_like('%s.%d' % (name, i), x) for i, x in enumerate(v.items)])
